@@ -119,6 +119,10 @@ type interpreter struct {
 	initFnDone   map[*ssa.Function]bool
 	hashes       []hashEntry
 	hashN        int
+	symMapOrder  bool
+	mapOrderN    int
+	symClock     bool
+	clockN       int
 	phaseADepth  int
 	pendingInits []pendingInit
 }
@@ -349,7 +353,7 @@ func visitInstr(fr *frame, instr ssa.Instruction) continuation {
 		fr.env[instr] = makeMap(instr.Type().Underlying().(*types.Map).Key(), reserve)
 
 	case *ssa.Range:
-		fr.env[instr] = rangeIter(fr.get(instr.X), instr.X.Type())
+		fr.env[instr] = rangeIter(fr.i, fr.get(instr.X), instr.X.Type())
 
 	case *ssa.Next:
 		fr.env[instr] = fr.get(instr.Iter).(iter).next()
